@@ -139,6 +139,7 @@ impl CliCase {
             allow_ext: self.allow_ext,
             allow_buffer: self.allow_buffer,
             prior_calls: 0,
+            build_style: 0,
         })
     }
 
